@@ -108,7 +108,7 @@ def run(module, consts=None, invariants=(), spec='Spec', properties=(), constrai
             cmd += ['-seed', str(seed)]
     cmd.append(root + '.tla')
     e = dict(os.environ)
-    jopts = '-Djava.io.tmpdir=' + wd + ' -XX:ParallelGCThreads=4'
+    jopts = '-Djava.io.tmpdir=' + wd + ' -XX:ParallelGCThreads=4 -Xss64m'     # deep RECURSIVE operators on long lists
     if depth_first:
         jopts += ' -Dtlc2.tool.queue.IStateQueue=StateDeque'
     e['JAVA_TOOL_OPTIONS'] = jopts
@@ -149,6 +149,11 @@ def run(module, consts=None, invariants=(), spec='Spec', properties=(), constrai
         m = re.match(r'The depth of the complete state graph search is (\d+)', line)
         if m:
             res['depth'] = int(m.group(1))
+        if 'java.lang.StackOverflowError' in line or 'java.lang.OutOfMemoryError' in line:
+            # a dead worker thread leaves TLC hanging until the outer timeout: stop it now
+            res['errors'].append(line[:300])
+            proc.kill()
+            break
         if line.startswith('Error:') or 'Exception' in line:
             if 'The behavior up to this point' not in line:
                 res['errors'].append(line[:500])
